@@ -166,6 +166,9 @@ func (c *Ctx) Cap(s string) {
 	c.Rep.Exhaustive = false
 }
 
+// SerialShard, when set, makes Parallel run this process's share (shard i of n) serially.
+var SerialShard func() (int, int)
+
 // Worker is one goroutine of Parallel; engines call Tick before each library call
 // so the watchdog can tell a hang from slow progress and name the call in flight.
 type Worker struct {
@@ -224,6 +227,26 @@ func newWorker() *Worker {
 // Parallel runs fn(w, i) for i in [0,n) on all cores; stops handing out work when
 // the deadline passes (then the run is marked non-exhaustive).
 func (c *Ctx) Parallel(n int, fn func(w *Worker, i int)) {
+	if SerialShard != nil {
+		// the engine owns process-wide state (one controller per process): this worker process
+		// runs its share of the units serially
+		shard, nshards := SerialShard()
+		w := newWorker()
+		atomic.StoreInt32(&w.active, 1)
+		defer atomic.StoreInt32(&w.active, 0)
+		for i := 0; i < n; i++ {
+			if i%nshards != shard {
+				continue
+			}
+			if c.Expired() {
+				c.Cap("internal deadline reached before all work units were started")
+				c.Count("work_units_not_started", 1)
+				return
+			}
+			fn(w, i)
+		}
+		return
+	}
 	var next int64 = -1
 	var wg sync.WaitGroup
 	k := runtime.GOMAXPROCS(0)
